@@ -1,16 +1,23 @@
 package main
 
 // C12: the stub printer.
-//   c12      generated signatures × doc lines × pragmas × constraint sets × function counts:
-//            the REAL printer.NewStubs output is (a) compared with go/format applied to the Lean
-//            model's pre-format text (c12fmt post-processes the model's answers), (b) judged
-//            by the Lean acceptor (package clause, declarations in order, directives, constraint
-//            lines equal to those of the assembly output), (c) measured with the Go toolchain:
-//            go/parser, go/types (file type-checks; every signature types.Identical to the one
-//            given to avo), doc and directives attached, go/format idempotence;
+//   c12      case descriptors (generated, forced witnesses of the listed findings, or read from the
+//            corpus with -replay): signatures × doc lines × pragmas × constraint sets × function counts,
+//            handed to avo by several ROUTES (ir.File built directly; build.Context with
+//            ConstraintExpr/Function/Signature/SignatureExpr/Doc/Pragma; gotypes.NewSignature,
+//            ParseSignatureInPackage, ParseSignature, LookupSignature; build.Context.Package +
+//            Implement on an on-disk package).  The REAL printer.NewStubs output is
+//            (a) compared with go/format applied to the Lean model's pre-format text (c12fmt
+//            post-processes the model's answers), (b) judged by the Lean acceptor (package clause,
+//            declarations in order, directives, constraint lines equal to those of the assembly
+//            output), (c) measured with the Go toolchain: go/parser, go/types (file type-checks;
+//            every signature types.Identical to the one the harness evaluated itself from the
+//            expression), doc and directives attached, go/format idempotence;
 //   c12fmt   format.Source over the model's `stubs` answers;
 //   c12build a sample of stub+asm pairs written as packages of one throw-away module:
-//            go list (both files under the same constraints), go build, go vet -asmdecl.
+//            go list (both files under the same constraints), go build, go vet -asmdecl, and an
+//            executable that references every function DECLARED in each stub file (go build of
+//            package main: links only if every declared function is defined by the assembly).
 
 import (
 	"bufio"
@@ -18,6 +25,7 @@ import (
 	"encoding/json"
 	"fmt"
 	"go/ast"
+	"go/build/constraint"
 	"go/format"
 	"go/parser"
 	"go/token"
@@ -25,6 +33,7 @@ import (
 	"os"
 	"os/exec"
 	"path/filepath"
+	"regexp"
 	"sort"
 	"strings"
 
@@ -33,252 +42,250 @@ import (
 	"github.com/mmcloughlin/avo/buildtags"
 	"github.com/mmcloughlin/avo/gotypes"
 	"github.com/mmcloughlin/avo/ir"
+	"github.com/mmcloughlin/avo/operand"
 	"github.com/mmcloughlin/avo/pass"
 	"github.com/mmcloughlin/avo/printer"
 	"github.com/mmcloughlin/avo/reg"
 )
 
-const p12HelperDecls = `
-type T struct {
-	A int32
-	b [3]uint8
-}
-
-type U uint16
-
-type V [2]T
-
-type P *T
-`
-
-func p12HelperSource(pkg string) string { return "package " + pkg + "\n" + p12HelperDecls }
-
-// p12TypesPackage type-checks the helper declarations: the package whose scope
-// the signature expressions are evaluated in.
-func p12TypesPackage(pkgname, path string) (*types.Package, error) {
-	fset := token.NewFileSet()
-	f, err := parser.ParseFile(fset, "types.go", p12HelperSource(pkgname), 0)
-	if err != nil {
-		return nil, err
-	}
-	conf := types.Config{}
-	return conf.Check(path, fset, []*ast.File{f}, nil)
-}
-
-var p12Basics = []string{"bool", "int8", "int16", "int32", "int64", "uint8", "uint16", "uint32", "uint64", "int", "uint", "uintptr", "float32", "float64", "complex64", "complex128", "string", "byte", "rune"}
-
-func p12GenType(r *rng, depth int, st map[string]int) string {
-	k := r.intn(20)
-	if depth >= 3 && k >= 10 {
-		k = r.intn(10)
-	}
-	switch {
-	case k < 9:
-		st["type_basic"]++
-		return pick(r, p12Basics)
-	case k < 11:
-		st["type_named"]++
-		return pick(r, []string{"T", "U", "V", "P"})
-	case k < 13:
-		st["type_pointer"]++
-		return "*" + p12GenType(r, depth+1, st)
-	case k < 15:
-		st["type_slice"]++
-		return "[]" + p12GenType(r, depth+1, st)
-	case k < 17:
-		st["type_array"]++
-		return fmt.Sprintf("[%d]%s", r.intn(5), p12GenType(r, depth+1, st))
-	case k < 19:
-		st["type_struct"]++
-		n := r.intn(4)
-		var fs []string
-		names := []string{"a", "b", "C", "d", "e"}
-		for i := 0; i < n; i++ {
-			switch r.intn(6) {
-			case 0:
-				fs = append(fs, "_ "+p12GenType(r, depth+1, st))
-			case 1:
-				if i+1 < len(names)-1 {
-					fs = append(fs, names[i]+"x, "+names[i]+"y "+p12GenType(r, depth+1, st))
-					continue
-				}
-				fallthrough
-			case 2:
-				fs = append(fs, names[i]+" "+p12GenType(r, depth+1, st)+" `json:\"x\"`")
-			default:
-				fs = append(fs, names[i]+" "+p12GenType(r, depth+1, st))
-			}
-		}
-		return "struct{" + strings.Join(fs, "; ") + "}"
-	default:
-		st["type_other"]++
-		return pick(r, []string{"map[string]int", "chan int", "<-chan uint8", "func(int) (int, error)", "interface{}", "error", "interface{ M(x int) }", "map[T][]U", "func()"})
-	}
-}
-
-// p12GenSignature returns a Go signature expression.
-func p12GenSignature(r *rng, st map[string]int, storableResults bool) string {
-	np := r.intn(5)
-	mode := r.intn(3) // 0 unnamed, 1 named, 2 named with blanks
-	var ps []string
-	for i := 0; i < np; i++ {
-		t := p12GenType(r, 0, st)
-		if i == np-1 && r.chance(1, 5) {
-			t = "..." + t
-			st["sig_variadic"]++
-		}
-		switch mode {
-		case 0:
-			ps = append(ps, t)
-		case 1:
-			if i+1 < np && r.chance(1, 4) && !strings.HasPrefix(t, "...") {
-				ps = append(ps, fmt.Sprintf("p%d, q%d %s", i, i, t))
-			} else {
-				ps = append(ps, fmt.Sprintf("p%d %s", i, t))
-			}
-		default:
-			if r.chance(1, 2) {
-				ps = append(ps, "_ "+t)
-			} else {
-				ps = append(ps, fmt.Sprintf("p%d %s", i, t))
-			}
-		}
-	}
-	st[fmt.Sprintf("sig_params_mode%d", mode)]++
-	nr := r.intn(4)
-	res := ""
-	rmode := r.intn(3)
-	var rs []string
-	for i := 0; i < nr; i++ {
-		t := p12GenType(r, 1, st)
-		if storableResults {
-			t = pick(r, []string{"uint64", "int32", "bool", "float64", "float32", "*byte", "uint8", "int16", "uintptr", "[]byte", "string", "[2]uint32", "struct{a uint16; b uint64}", "complex128", "T", "V", "*T", "[]T"})
-		}
-		switch rmode {
-		case 0:
-			rs = append(rs, t)
-		case 1:
-			rs = append(rs, fmt.Sprintf("r%d %s", i, t))
-		default:
-			if r.chance(1, 2) {
-				rs = append(rs, "_ "+t)
-			} else {
-				rs = append(rs, fmt.Sprintf("r%d %s", i, t))
-			}
-		}
-	}
-	st[fmt.Sprintf("sig_results_%d", nr)]++
-	switch {
-	case nr == 0:
-	case nr == 1 && rmode == 0:
-		res = " " + rs[0]
-	default:
-		res = " (" + strings.Join(rs, ", ") + ")"
-	}
-	return "func(" + strings.Join(ps, ", ") + ")" + res
-}
-
-var p12FnNames = []string{"f", "Add", "sum_avx2", "Σ", "mul", "X", "dot_product", "_priv", "αβγ"}
-var p12DocPool = []string{"f does things.", "", "100% of %d", "  indented code", "trailing  ", "# Heading", " - item", "Deprecated: no.", "café", "//go:nosplit", "go:build x", "%s %v %", "a\tb", "1. first", "[Link]: https://x.y", "* star", "\tx := 1", "nbsp\u00a0", "zwsp\u200b", "em\u2003", "nel\u0085"}
-
-type p12Fn struct {
+type c12Fn struct {
 	name string
 	expr string
-	sig  *types.Signature
+	sig  *types.Signature // evaluated by the harness from the expression (independent of avo)
 }
 
-type p12Case struct {
+type c12Case struct {
+	desc    c12Desc
 	cfg     printer.Config
 	file    *ir.File
-	fns     []p12Fn
-	pkg     *types.Package
+	fns     []c12Fn
+	u       *c12Universe
 	pkgpath string
 }
 
-func p12GenCase(r *rng, st map[string]int, idx int, forBuild bool) (*p12Case, error) {
-	c := &p12Case{}
-	c.cfg = printer.Config{Name: pick(r, []string{"avo", "gen", "my tool"}), Pkg: pick(r, []string{"p", "mypkg", "x_y", "asm"})}
-	if r.chance(1, 3) {
-		c.cfg.Argv = []string{"go", "run", "asm.go", "-out", "x.s", "-stubs", "stub.go"}
+var c12ReForeign = regexp.MustCompile(`\b(unsafe|q)\.`)
+
+func c12BuiltinOnly(expr string) bool {
+	_, err := types.Eval(token.NewFileSet(), nil, token.NoPos, expr)
+	return err == nil
+}
+
+// c12Signature obtains the gotypes.Signature by the requested route.
+func c12Signature(c *c12Case, fn c12FnDesc, sig *types.Signature, st map[string]int) (*gotypes.Signature, error) {
+	route := fn.Route
+	foreign := c12ReForeign.MatchString(fn.Sig)
+	if route == "expr" && !c12BuiltinOnly(fn.Sig) {
+		route = "parse"
 	}
-	if !forBuild && r.chance(1, 40) {
-		c.cfg.Pkg = pick(r, []string{"", "9p", "a b"}) // invalid package clause: the printer must report an error
-		st["bad_package"]++
+	if route == "parse" && foreign {
+		route = "new" // package-scope evaluation cannot see imports
+	}
+	st["route_"+route]++
+	switch route {
+	case "expr":
+		return gotypes.ParseSignature(fn.Sig)
+	case "parse":
+		return gotypes.ParseSignatureInPackage(c.u.pkg, fn.Sig)
+	case "lookup":
+		return gotypes.LookupSignature(c.u.pkg, fn.Name)
+	default:
+		return gotypes.NewSignature(c.u.pkg, sig), nil
+	}
+}
+
+var c12ImplModReady = map[string]bool{}
+
+// c12ImplPackage writes the case's Go declarations as an on-disk package of module m under
+// work/implmod, for build.Context.Package (go/packages) + Implement.
+func c12ImplPackage(work string, c *c12Case, idx int) (string, error) {
+	mod := filepath.Join(work, "implmod")
+	if !c12ImplModReady[mod] {
+		os.RemoveAll(mod)
+		if err := os.MkdirAll(filepath.Join(mod, "q"), 0o755); err != nil {
+			return "", err
+		}
+		if err := os.WriteFile(filepath.Join(mod, "go.mod"), []byte("module m\n\ngo 1.22\n"), 0o644); err != nil {
+			return "", err
+		}
+		if err := os.WriteFile(filepath.Join(mod, "q", "q.go"), []byte(c12QSource), 0o644); err != nil {
+			return "", err
+		}
+		c12ImplModReady[mod] = true
+	}
+	dir := filepath.Join(mod, fmt.Sprintf("i%d", idx))
+	if err := os.MkdirAll(dir, 0o755); err != nil {
+		return "", err
+	}
+	if err := os.WriteFile(filepath.Join(dir, "decl.go"), []byte(c.u.src), 0o644); err != nil {
+		return "", err
+	}
+	// an assembly file in the package: bodyless declarations are then legal for the compiler
+	if err := os.WriteFile(filepath.Join(dir, "impl_amd64.s"), []byte("// placeholder\n"), 0o644); err != nil {
+		return "", err
+	}
+	return dir, nil
+}
+
+// c12BuildCase drives avo as the descriptor says.
+func c12BuildCase(d c12Desc, idx int, body bool, work string, st map[string]int) (*c12Case, error) {
+	c := &c12Case{desc: d}
+	c.cfg = printer.Config{Name: d.Tool, Pkg: d.Pkg}
+	if d.HasArgv {
+		c.cfg.Argv = append([]string{}, d.Argv...)
 	}
 	c.pkgpath = fmt.Sprintf("m/p%d", idx)
-	pkgname := c.cfg.Pkg
+	pkgname := d.Pkg
 	if !token.IsIdentifier(pkgname) {
 		pkgname = "p"
 	}
-	pkg, err := p12TypesPackage(pkgname, c.pkgpath)
+	extra := ""
+	for _, fn := range d.Fns {
+		if (fn.Route == "lookup" || d.Via == "implement") && strings.HasPrefix(fn.Sig, "func(") {
+			extra += "\nfunc " + fn.Name + fn.Sig[4:] + "\n"
+		}
+	}
+	if d.Via == "implement" {
+		c.pkgpath = fmt.Sprintf("m/i%d", idx)
+	}
+	u, err := c12NewUniverse(pkgname, c.pkgpath, extra)
 	if err != nil {
-		return nil, err
+		return nil, fmt.Errorf("universe: %v", err)
 	}
-	c.pkg = pkg
-	f := ir.NewFile()
-	c.file = f
-	if forBuild {
-		// constraints mostly satisfied on the host so that the pair is really built
-		if r.chance(2, 3) {
-			c0, err := buildtags.ParseConstraint(pick(r, []string{"amd64", "linux", "!purego", "amd64,!appengine", "linux darwin", "!amd64,!arm64 gc", "go1.18", "amd64,gc,!purego linux,!cgo", "arm64"}))
-			if err == nil {
-				f.Constraints = buildtags.Constraints{c0}
-			}
-		}
-	} else {
-		f.Constraints = p11GenConstraints(r)
-	}
-	nf := r.intn(5)
-	if r.chance(1, 20) {
-		nf = 6 + r.intn(10)
-	}
-	if forBuild && nf == 0 {
-		nf = 1
-	}
-	st[fmt.Sprintf("functions_%s", p11Bucket(nf))]++
-	used := map[string]bool{}
-	for k := 0; k < nf; k++ {
-		if !forBuild && r.chance(1, 6) {
-			f.AddSection(p11GenGlobal(r, false, k))
-		}
-		name := pick(r, p12FnNames)
-		if used[name] {
-			name = fmt.Sprintf("%s%d", name, k)
-		}
-		used[name] = true
-		expr := p12GenSignature(r, st, forBuild)
-		tv, err := types.Eval(token.NewFileSet(), pkg, token.NoPos, expr)
+	c.u = u
+	for _, fn := range d.Fns {
+		tv, err := u.eval(fn.Sig)
 		if err != nil {
-			return nil, fmt.Errorf("eval %q: %v", expr, err)
+			return nil, fmt.Errorf("eval %q: %v", fn.Sig, err)
 		}
-		sig := tv.Type.(*types.Signature)
-		fn := ir.NewFunction(name)
-		fn.SetSignature(gotypes.NewSignature(pkg, sig))
-		fn.Attributes = attr.NOSPLIT
-		if r.chance(1, 2) {
-			for j := r.rangeIn(1, 4); j > 0; j-- {
-				fn.Doc = append(fn.Doc, pick(r, p12DocPool))
-			}
-			st["with_doc"]++
+		sig, ok := tv.Type.(*types.Signature)
+		if !ok {
+			return nil, fmt.Errorf("%q is not a signature", fn.Sig)
 		}
-		if r.chance(1, 3) {
-			st["with_pragma"]++
-			fn.AddPragma(pick(r, []string{"noescape", "nosplit", "norace"}))
-			if r.chance(1, 3) {
-				fn.AddPragma("nosplit")
-			}
-			if !forBuild && r.chance(1, 4) {
-				fn.AddPragma("linkname", name, "runtime."+name)
-			}
-		}
-		c.fns = append(c.fns, p12Fn{name, expr, sig})
-		f.AddSection(fn)
+		c.fns = append(c.fns, c12Fn{fn.Name, fn.Sig, sig})
 	}
+	st["via_"+d.Via]++
+	if d.Via == "ir" {
+		f := ir.NewFile()
+		for _, e := range d.Cons {
+			k, err := buildtags.ParseConstraint(e)
+			if err != nil {
+				return nil, fmt.Errorf("constraint %q: %v", e, err)
+			}
+			f.Constraints = append(f.Constraints, k)
+		}
+		for i, fd := range d.Fns {
+			if fd.GlobalBefore {
+				g := ir.NewStaticGlobal(fmt.Sprintf("tbl%d", i))
+				g.Append(operand.U64(uint64(i)))
+				f.AddSection(g)
+			}
+			fn := ir.NewFunction(fd.Name)
+			s, err := c12Signature(c, fd, c.fns[i].sig, st)
+			if err != nil {
+				return nil, fmt.Errorf("signature route %s %q: %v", fd.Route, fd.Sig, err)
+			}
+			fn.SetSignature(s)
+			fn.Attributes = attr.NOSPLIT
+			fn.Doc = append([]string(nil), fd.Doc...)
+			for _, p := range fd.Pragmas {
+				fn.AddPragma(p[0], p[1:]...)
+			}
+			f.AddSection(fn)
+		}
+		c.file = f
+		return c, nil
+	}
+	ctx := build.NewContext()
+	if d.Via == "implement" {
+		dir, err := c12ImplPackage(work, c, idx)
+		if err != nil {
+			return nil, err
+		}
+		wd, _ := os.Getwd()
+		if err := os.Chdir(dir); err != nil {
+			return nil, err
+		}
+		ctx.Package(".")
+		os.Chdir(wd)
+	}
+	for _, e := range d.Cons {
+		ctx.ConstraintExpr(e)
+	}
+	for i, fd := range d.Fns {
+		if fd.GlobalBefore {
+			ctx.StaticGlobal(fmt.Sprintf("tbl%d", i))
+			ctx.AddDatum(0, operand.U64(uint64(i)))
+		}
+		if d.Via == "implement" {
+			st["route_implement"]++
+			ctx.Implement(fd.Name)
+		} else {
+			ctx.Function(fd.Name)
+			if fd.Route == "expr" && c12BuiltinOnly(fd.Sig) {
+				st["route_ctx_expr"]++
+				ctx.SignatureExpr(fd.Sig)
+			} else {
+				s, err := c12Signature(c, fd, c.fns[i].sig, st)
+				if err != nil {
+					return nil, fmt.Errorf("signature route %s %q: %v", fd.Route, fd.Sig, err)
+				}
+				ctx.Signature(s)
+			}
+		}
+		ctx.Attributes(attr.NOSPLIT)
+		if len(fd.Doc) > 0 {
+			ctx.Doc(fd.Doc...)
+		}
+		for _, p := range fd.Pragmas {
+			ctx.Pragma(p[0], p[1:]...)
+		}
+		if body {
+			sig := c.fns[i].sig
+			// read every named parameter and write every named result through avo's Load/Store,
+			// so that the assembly refers to them by name and offset (what vet's asmdecl compares)
+			for j := 0; j < sig.Params().Len(); j++ {
+				v := sig.Params().At(j)
+				if v.Name() == "" || v.Name() == "_" {
+					continue
+				}
+				leaf, b := c12Leaf(ctx.Param(v.Name()), v.Type(), 0)
+				if b == nil {
+					st["param_without_leaf"]++
+					continue
+				}
+				st["param_loaded"]++
+				ctx.Load(leaf, c12RegFor(b))
+			}
+			for j := 0; j < sig.Results().Len(); j++ {
+				if sig.Results().At(j).Name() == "_" {
+					continue // a blank result has no name to refer to in x+off(FP) syntax
+				}
+				leaf, b := c12Leaf(ctx.ReturnIndex(j), sig.Results().At(j).Type(), 0)
+				if b == nil {
+					st["result_without_leaf"]++
+					continue
+				}
+				st["result_stored"]++
+				ctx.Store(c12RegFor(b), leaf)
+			}
+			ctx.RET()
+		}
+	}
+	file, err := ctx.Result()
+	if err != nil {
+		return nil, fmt.Errorf("build.Context: %v", err)
+	}
+	if body {
+		if err := pass.Compile.Execute(file); err != nil {
+			return nil, fmt.Errorf("compile: %v", err)
+		}
+	}
+	c.file = file
 	return c, nil
 }
 
-// p12Stubs calls the real stub printer.
-func p12Stubs(cfg printer.Config, f *ir.File) (out string, status string) {
+// c12Stubs calls the real stub printer.
+func c12Stubs(cfg printer.Config, f *ir.File) (out string, status string) {
 	defer func() {
 		if e := recover(); e != nil {
 			out, status = "", "panic"
@@ -291,8 +298,143 @@ func p12Stubs(cfg printer.Config, f *ir.File) (out string, status string) {
 	return string(b), "ok"
 }
 
-// p12Measure judges the real stub output with the Go toolchain.
-func p12Measure(c *p12Case, out string) string {
+func c12PrintAsm(cfg printer.Config, f *ir.File) (out string, status string) {
+	defer func() {
+		if e := recover(); e != nil {
+			out, status = "", "panic"
+		}
+	}()
+	b, err := printer.NewGoAsm(cfg).Print(f)
+	if err != nil {
+		return "", "error"
+	}
+	return string(b), "ok"
+}
+
+// c12ConstraintMeaning compares the conjunction of the given `// +build`-syntax expressions with the
+// `//go:build` line of the output on every assignment of the tags mentioned (at most 2^12).
+func c12ConstraintMeaning(given []string, lines []string) string {
+	var want []constraint.Expr
+	for _, e := range given {
+		x, err := constraint.Parse("// +build " + e)
+		if err != nil {
+			return "" // not a valid expression for the toolchain: nothing to compare
+		}
+		want = append(want, x)
+	}
+	var got []constraint.Expr
+	nGo := 0
+	for _, l := range lines {
+		if constraint.IsGoBuild(l) {
+			x, err := constraint.Parse(l)
+			if err != nil {
+				return "constraints-unparsable"
+			}
+			got = append(got, x)
+			nGo++
+		}
+	}
+	if nGo > 1 {
+		return "constraints-multiple-gobuild"
+	}
+	if len(want) > 0 && nGo == 0 {
+		return "constraints-missing"
+	}
+	tagset := map[string]bool{}
+	var collect func(x constraint.Expr)
+	collect = func(x constraint.Expr) {
+		switch x := x.(type) {
+		case *constraint.AndExpr:
+			collect(x.X)
+			collect(x.Y)
+		case *constraint.OrExpr:
+			collect(x.X)
+			collect(x.Y)
+		case *constraint.NotExpr:
+			collect(x.X)
+		case *constraint.TagExpr:
+			tagset[x.Tag] = true
+		}
+	}
+	for _, x := range append(append([]constraint.Expr{}, want...), got...) {
+		collect(x)
+	}
+	var tags []string
+	for t := range tagset {
+		tags = append(tags, t)
+	}
+	sort.Strings(tags)
+	if len(tags) > 12 {
+		tags = tags[:12]
+	}
+	for m := 0; m < 1<<len(tags); m++ {
+		on := map[string]bool{}
+		for i, t := range tags {
+			on[t] = m&(1<<i) != 0
+		}
+		ok := func(t string) bool { return on[t] }
+		w, g := true, true
+		for _, x := range want {
+			w = w && x.Eval(ok)
+		}
+		for _, x := range got {
+			g = g && x.Eval(ok)
+		}
+		if w != g {
+			return "constraints-meaning"
+		}
+	}
+	return ""
+}
+
+var c12ReListMarker = regexp.MustCompile(`^([-*+•]|[0-9]+[.)])$`)
+
+// c12DocWords: go/format re-indents, normalises list markers (`*`, `+` become `-`, numbers are
+// renumbered) and moves link definitions to the end of the comment; the words stay, in order
+// (compared as a multiset when the doc has link-definition lines).
+func c12DocWords(text string, multiset bool) string {
+	ws := strings.Fields(text)
+	for k, w := range ws {
+		if c12ReListMarker.MatchString(w) {
+			ws[k] = "-"
+		}
+	}
+	if multiset {
+		sort.Strings(ws)
+	}
+	return strings.Join(ws, " ")
+}
+
+func c12HasNL(ss ...string) bool {
+	for _, s := range ss {
+		if strings.ContainsAny(s, "\n\r") {
+			return true
+		}
+	}
+	return false
+}
+
+// c12Measure judges the real stub output with the Go toolchain.
+func c12Measure(c *c12Case, out string) string {
+	v := c12MeasureRaw(c, out)
+	if strings.HasPrefix(v, "decl-") || strings.HasPrefix(v, "directive") || strings.HasPrefix(v, "doc-") {
+		// finding: a newline inside a doc line / pragma token is printed raw and what follows it is
+		// parsed as Go declarations
+		for _, fn := range c.file.Functions() {
+			if c12HasNL(fn.Doc...) {
+				return "newline-injects-declaration/doc:" + v
+			}
+			for _, p := range fn.Pragmas {
+				if c12HasNL(p.Directive) || c12HasNL(p.Arguments...) {
+					return "newline-injects-declaration/pragma:" + v
+				}
+			}
+		}
+	}
+	return v
+}
+
+func c12MeasureRaw(c *c12Case, out string) string {
 	fset := token.NewFileSet()
 	af, err := parser.ParseFile(fset, "stub.go", out, parser.ParseComments)
 	if err != nil {
@@ -301,13 +443,43 @@ func p12Measure(c *p12Case, out string) string {
 	if af.Name.Name != c.cfg.Pkg {
 		return "package-name"
 	}
+	if len(af.Imports) != 0 {
+		return "unexpected-imports"
+	}
+	// build constraint lines anywhere in the file: exactly the file's constraint block
+	var cons []string
+	for _, l := range strings.Split(out, "\n") {
+		if constraint.IsGoBuild(l) || constraint.IsPlusBuild(l) {
+			cons = append(cons, l)
+		}
+	}
+	if want, err := c12ConstraintLines(c.file); err != nil || strings.Join(cons, "\n") != strings.Join(want, "\n") {
+		// finding: a doc line `+build …` is printed as `// +build …`, which go/format takes for a
+		// build constraint: it moves it into the header and adds the //go:build line
+		for _, fn := range c.desc.Fns {
+			for _, l := range fn.Doc {
+				if constraint.IsPlusBuild(strings.TrimSpace("// " + l)) {
+					return "constraints-changed/doc-plusbuild"
+				}
+			}
+		}
+		return "constraints-changed"
+	}
+	// … and it MEANS what the descriptor's constraint expressions mean (independent expectation:
+	// go/build/constraint on the expressions the harness handed to avo, all tag assignments)
+	if v := c12ConstraintMeaning(c.desc.Cons, cons); v != "" {
+		return v
+	}
 	if len(af.Decls) != len(c.fns) {
 		return "decl-count"
 	}
 	irfns := c.file.Functions()
+	if len(irfns) != len(c.fns) {
+		return "ir-function-count"
+	}
 	for i, d := range af.Decls {
 		fd, ok := d.(*ast.FuncDecl)
-		if !ok || fd.Body != nil || fd.Recv != nil {
+		if !ok || fd.Body != nil || fd.Recv != nil || fd.Type.TypeParams != nil {
 			return fmt.Sprintf("decl-kind/%d", i)
 		}
 		if fd.Name.Name != c.fns[i].name {
@@ -329,50 +501,66 @@ func p12Measure(c *p12Case, out string) string {
 			}
 		}
 		var want []string
-		for _, p := range irfns[i].Pragmas {
-			want = append(want, strings.Join(append([]string{"//go:" + p.Directive}, p.Arguments...), " "))
+		for _, p := range c.desc.Fns[i].Pragmas {
+			want = append(want, "//go:"+strings.Join(p, " "))
 		}
 		if strings.Join(dirs, "\n") != strings.Join(want, "\n") {
 			return fmt.Sprintf("directives/%d", i)
 		}
-		// go/format normalises list markers (`*`, `+` become `-`), spacing, and moves link
-		// definitions to the end of the comment; the words are kept (compared as a multiset)
-		norm := func(ws []string) string {
-			for k, w := range ws {
-				if w == "*" || w == "+" || w == "•" {
-					ws[k] = "-"
-				}
+		given := c.desc.Fns[i].Doc
+		multiset := false
+		for _, l := range given {
+			if strings.HasPrefix(strings.TrimSpace(l), "[") {
+				multiset = true
 			}
-			sort.Strings(ws)
-			return strings.Join(ws, " ")
 		}
-		if norm(strings.Fields(fd.Doc.Text())) != norm(strings.Fields(strings.Join(irfns[i].Doc, " "))) {
+		if c12DocWords(fd.Doc.Text(), multiset) != c12DocWords(strings.Join(given, " "), multiset) {
 			return fmt.Sprintf("doc-text/%d", i)
 		}
-		// type identity with the signature given to avo (same type universe:
-		// the printed signature text is evaluated in avo's package)
+		// type identity with the signature the harness evaluated from the expression (same type
+		// universe: the printed signature text is evaluated in the helper package's file scope)
 		src := out[fset.Position(fd.Type.Params.Pos()).Offset:fset.Position(fd.Type.End()).Offset]
-		tv, err := types.Eval(token.NewFileSet(), c.pkg, token.NoPos, "func"+src)
+		tv, err := c.u.eval("func" + src)
 		if err != nil {
 			return fmt.Sprintf("signature-eval/%d", i)
 		}
 		if !types.Identical(tv.Type, c.fns[i].sig) {
 			return fmt.Sprintf("signature-not-identical/%d", i)
 		}
+		ps, ok := tv.Type.(*types.Signature)
+		if !ok || ps.Variadic() != c.fns[i].sig.Variadic() {
+			return fmt.Sprintf("signature-variadic/%d", i)
+		}
+		// parameter and result NAMES are what the assembly refers to (types.Identical ignores them)
+		for _, tup := range [][2]*types.Tuple{{ps.Params(), c.fns[i].sig.Params()}, {ps.Results(), c.fns[i].sig.Results()}} {
+			for j := 0; j < tup[0].Len(); j++ {
+				if tup[0].At(j).Name() != tup[1].At(j).Name() {
+					return fmt.Sprintf("signature-names/%d", i)
+				}
+			}
+		}
 	}
 	// the whole file type-checks together with the helper declarations
-	hf, err := parser.ParseFile(fset, "types.go", p12HelperSource(c.cfg.Pkg), 0)
+	hf, err := parser.ParseFile(fset, "types.go", c12HelperSource(c.cfg.Pkg), 0)
 	if err != nil {
 		return "helper-parse"
 	}
 	var terr error
-	conf := types.Config{Error: func(e error) {
+	conf := types.Config{Importer: c12Importer{}, Error: func(e error) {
 		if terr == nil {
 			terr = e
 		}
 	}}
 	pkg, _ := conf.Check(c.pkgpath, fset, []*ast.File{af, hf}, nil)
 	if terr != nil {
+		// finding: the stub printer emits no import declarations
+		if m := regexp.MustCompile(`undefined: (unsafe|q)$`).FindStringSubmatch(terr.Error()); m != nil {
+			for _, fn := range c.fns {
+				if strings.Contains(fn.expr, m[1]+".") {
+					return "type-error/missing-import"
+				}
+			}
+		}
 		return "type-error"
 	}
 	for i, fn := range c.fns {
@@ -394,36 +582,145 @@ func p12Measure(c *p12Case, out string) string {
 		return "format-error"
 	}
 	if string(b) != out {
-		// is the instability confined to comment lines?
-		strip := func(t string) string {
-			var ls []string
-			for _, l := range strings.Split(t, "\n") {
-				if !strings.HasPrefix(l, "//") {
-					ls = append(ls, l)
-				}
-			}
-			return strings.Join(ls, "\n")
-		}
-		if strip(string(b)) == strip(out) {
-			return "not-gofmt-stable/doc-comment"
-		}
-		return "not-gofmt-stable/code"
+		return c12Unstable(c, fset, af, out, string(b))
 	}
 	return "ok"
 }
 
-func p12Emit(o *out, c *p12Case, st map[string]int) (stub, asm string, ok bool) {
-	e := &p11Enc{}
-	p11EncodeCfg(e, c.cfg)
-	if err := p11EncodeFile(e, c.file); err != nil {
+// c12Unstable classifies a go/format instability. Finding F16 is the class `doc-comment:code+list`:
+// the two texts differ ONLY inside the non-directive lines of doc comment groups of declarations
+// whose given doc has both an indented (code) line and a list-item line.
+func c12Unstable(c *c12Case, fset *token.FileSet, af *ast.File, out, again string) string {
+	docLines := map[int]int{} // line → function index
+	for i, d := range af.Decls {
+		fd, ok := d.(*ast.FuncDecl)
+		if !ok || fd.Doc == nil {
+			continue
+		}
+		for _, cm := range fd.Doc.List {
+			if !strings.HasPrefix(cm.Text, "//go:") {
+				docLines[fset.Position(cm.Pos()).Line] = i
+			}
+		}
+	}
+	// everything outside those lines must be untouched, line for line, after removing them
+	strip := func(t string, lines map[int]int) string {
+		var ls []string
+		for k, l := range strings.Split(t, "\n") {
+			if _, ok := lines[k+1]; !ok {
+				ls = append(ls, l)
+			}
+		}
+		return strings.Join(ls, "\n")
+	}
+	fset2 := token.NewFileSet()
+	af2, err := parser.ParseFile(fset2, "stub.go", again, parser.ParseComments)
+	if err != nil || len(af2.Decls) != len(af.Decls) {
+		return "not-gofmt-stable/code"
+	}
+	docLines2 := map[int]int{}
+	changed := map[int]bool{}
+	for i, d := range af2.Decls {
+		fd2, ok := d.(*ast.FuncDecl)
+		fd1, ok1 := af.Decls[i].(*ast.FuncDecl)
+		if !ok || !ok1 {
+			return "not-gofmt-stable/code"
+		}
+		var t1, t2 []string
+		if fd1.Doc != nil {
+			for _, cm := range fd1.Doc.List {
+				t1 = append(t1, cm.Text)
+			}
+		}
+		if fd2.Doc != nil {
+			for _, cm := range fd2.Doc.List {
+				t2 = append(t2, cm.Text)
+				if !strings.HasPrefix(cm.Text, "//go:") {
+					docLines2[fset2.Position(cm.Pos()).Line] = i
+				}
+			}
+		}
+		if strings.Join(t1, "\n") != strings.Join(t2, "\n") {
+			changed[i] = true
+		}
+	}
+	if strip(out, docLines) != strip(again, docLines2) {
+		return "not-gofmt-stable/code"
+	}
+	for i := range changed {
+		code, list := false, false
+		for _, l := range c.desc.Fns[i].Doc {
+			t := strings.TrimLeft(l, " \t")
+			if t != l && t != "" {
+				code = true
+			}
+			if fs := strings.Fields(l); len(fs) > 0 && c12ReListMarker.MatchString(fs[0]) {
+				list = true
+			}
+		}
+		if !(code && list) {
+			return "not-gofmt-stable/doc-comment:other"
+		}
+	}
+	return "not-gofmt-stable/doc-comment:code+list"
+}
+
+// c12WellFormed: no newline in any token; Stub() is `func NAME(`… with no `(` in NAME; the constraint
+// lines are //go:build or // +build lines, none when the file has no constraints.
+func c12WellFormed(c *c12Case) bool {
+	nonl := func(ss ...string) bool {
+		for _, s := range ss {
+			if strings.Contains(s, "\n") {
+				return false
+			}
+		}
+		return true
+	}
+	if !nonl(c.cfg.Name, c.cfg.Pkg) || !nonl(c.cfg.Argv...) {
+		return false
+	}
+	cons, err := c12ConstraintLines(c.file)
+	if err != nil {
+		return false
+	}
+	if len(c.file.Constraints) == 0 && len(cons) > 0 {
+		return false
+	}
+	for _, l := range cons {
+		if !nonl(l) || !(strings.HasPrefix(l, "//go:build") || strings.HasPrefix(l, "// +build")) {
+			return false
+		}
+	}
+	for _, fn := range c.file.Functions() {
+		if !nonl(fn.Doc...) || !nonl(fn.Stub()) || strings.Contains(fn.Name, "(") || !strings.HasPrefix(fn.Stub(), "func "+fn.Name+"(") {
+			return false
+		}
+		for _, p := range fn.Pragmas {
+			if !nonl(p.Directive) || !nonl(p.Arguments...) {
+				return false
+			}
+		}
+	}
+	return true
+}
+
+func c12Emit(o *out, c *c12Case, st map[string]int) (stub, asm string, ok bool) {
+	e := &c12Enc{}
+	c12EncodeCfg(e, c.cfg)
+	if err := c12EncodeFile(e, c.file); err != nil {
 		st["encode_error"]++
 		return "", "", false
 	}
-	fe := &p11Enc{}
-	if err := p11EncodeFile(fe, c.file); err != nil {
+	fe := &c12Enc{}
+	if err := c12EncodeFile(fe, c.file); err != nil {
 		return "", "", false
 	}
-	stub, status := p12Stubs(c.cfg, c.file)
+	// the token hypotheses of the text-level theorems (Props/C12 `WFStubs`), evaluated by the harness
+	// on the real values and by the driver on the transmitted ones
+	wf := c12WellFormed(c)
+	st["wf_"+c12B01(wf)]++
+	o.emit("wf-stubs "+e.String(), c12B01(wf))
+	stub, status := c12Stubs(c.cfg, c.file)
 	st["stubs_"+status]++
 	if status != "ok" {
 		o.emit("stubs "+e.String(), status)
@@ -431,17 +728,93 @@ func p12Emit(o *out, c *p12Case, st map[string]int) (stub, asm string, ok bool) 
 	}
 	o.emit("stubs "+e.String(), hexs(stub))
 	o.emit("accept-stubs "+e.String()+" "+hexs(stub), "ok")
-	asm, astatus := p11PrintAsm(c.cfg, c.file)
+	asm, astatus := c12PrintAsm(c.cfg, c.file)
 	if astatus == "ok" {
+		st["judged_cons"]++
 		o.emit("accept-cons "+fe.String()+" "+hexs(asm)+" "+hexs(stub), "ok")
 	}
-	o.emit("accept-gostub "+p12Measure(c, stub)+" "+e.String(), "ok")
+	st["judged_gostub"]++
+	nd, np := 0, 0
+	for _, fn := range c.file.Functions() {
+		if len(fn.Doc) > 0 {
+			nd++
+		}
+		if len(fn.Pragmas) > 0 {
+			np++
+		}
+		if len(fn.Doc) > 0 && len(fn.Pragmas) > 0 {
+			st["judged_fn_doc_and_pragma"]++
+		}
+	}
+	st["judged_fn"] += len(c.file.Functions())
+	st["judged_fn_doc"] += nd
+	st["judged_fn_pragma"] += np
+	for _, fn := range c.fns {
+		if fn.sig.Variadic() {
+			st["judged_fn_variadic"]++
+		}
+		if strings.Contains(fn.expr, "struct{") || strings.Contains(fn.expr, "interface{ ") {
+			st["judged_fn_literal_type"]++
+		}
+	}
+	if nd == 0 && len(c.fns) > 0 {
+		st["judged_file_without_doc"]++
+	}
+	o.emit("accept-gostub "+c12Measure(c, stub)+" "+e.String(), "ok")
 	return stub, asm, astatus == "ok"
+}
+
+// c12Forced: witnesses of the listed findings, produced by every run.
+func c12Forced() []c12Desc {
+	one := func(fn c12FnDesc, via string) c12Desc {
+		return c12Desc{Tool: "avo", Pkg: "p", Via: via, Fns: []c12FnDesc{fn}}
+	}
+	return []c12Desc{
+		// F16: go/format is not idempotent on this doc comment
+		one(c12FnDesc{Name: "f", Sig: "func(x uint64) uint64", Route: "new", Doc: []string{"  indented code", " - item", "  indented code"}}, "ir"),
+		// C12-doc-newline / C12-pragma-newline
+		one(c12FnDesc{Name: "f", Sig: "func(x uint64) uint64", Route: "expr", Doc: []string{"f doc", c12DocNewline}}, "ctx"),
+		one(c12FnDesc{Name: "f", Sig: "func(x uint64) uint64", Route: "expr", Pragmas: [][]string{{c12PragmaNewline}}}, "ctx"),
+		// C12-doc-plusbuild
+		one(c12FnDesc{Name: "f", Sig: "func(x uint64) uint64", Route: "expr", Doc: []string{"f does it.", c12DocPlusBuild}}, "ctx"),
+		// C12-missing-import
+		one(c12FnDesc{Name: "f", Sig: "func(p unsafe.Pointer, n int)", Route: "new"}, "ctx"),
+		one(c12FnDesc{Name: "Sum", Sig: "func(d q.D, s *q.S) q.D", Route: "lookup"}, "ir"),
+		one(c12FnDesc{Name: "Fill", Sig: "func(p unsafe.Pointer, d q.D) (n int)", Route: "lookup"}, "implement"),
+		// shapes every run must contain (seeded changes C12-1..4)
+		one(c12FnDesc{Name: "Sum", Sig: "func(base uint64, xs ...uint64) uint64", Route: "expr"}, "ctx"),
+		one(c12FnDesc{Name: "Sum", Sig: "func(base T, xs ...*T) (r U)", Route: "lookup", Doc: []string{"Sum adds."}, Pragmas: [][]string{{"noescape"}}}, "implement"),
+		one(c12FnDesc{Name: "Split", Sig: "func(v uint64) (r struct{lo uint32; hi uint32})", Route: "parse"}, "ir"),
+		one(c12FnDesc{Name: "Split", Sig: "func(v interface{ M(x int); N() }) (r struct{lo uint32})", Route: "expr", Pragmas: [][]string{{"nosplit"}}}, "ctx"),
+		one(c12FnDesc{Name: "Add", Sig: "func(x, y *uint64, z *uint64)", Route: "expr", Doc: []string{"Add adds x and y.", "", "None of the pointers escape."}, Pragmas: [][]string{{"noescape"}, {"nosplit"}}}, "ctx"),
+	}
+}
+
+func c12ReadDescs(path string) ([]c12Desc, error) {
+	lines, err := readLines(path)
+	if err != nil {
+		return nil, err
+	}
+	var ds []c12Desc
+	for _, l := range lines {
+		l = strings.TrimSpace(l)
+		if l == "" || strings.HasPrefix(l, "#") {
+			continue
+		}
+		var d c12Desc
+		if err := json.Unmarshal([]byte(l), &d); err != nil {
+			return nil, fmt.Errorf("corpus line %q: %v", l, err)
+		}
+		ds = append(ds, d)
+	}
+	return ds, nil
 }
 
 func init() {
 	register("c12", "stub printer: model tie (through go/format), acceptor, go/parser+go/types measurements", func(args []string) error {
 		f := newStdFlags("c12")
+		work := f.fs.String("work", ".", "scratch directory")
+		descs := f.fs.String("descs", "", "write the case descriptors (JSON lines) here")
 		if err := f.fs.Parse(args); err != nil {
 			return err
 		}
@@ -452,18 +825,55 @@ func init() {
 		defer o.close()
 		r := newRng(*f.seed)
 		st := map[string]int{}
-		for k := 0; k < *f.n; k++ {
-			c, err := p12GenCase(r, st, k, k == 0)
+		g := &c12Gen{r: r, st: st, foreign: true}
+		var ds []c12Desc
+		if *f.replay != "" {
+			if ds, err = c12ReadDescs(*f.replay); err != nil {
+				return err
+			}
+		} else {
+			ds = c12Forced()
+			st["forced"] = len(ds)
+			nimpl := 3
+			if *f.tier != "quick" {
+				nimpl = 40
+			}
+			for k := len(ds); k < *f.n; k++ {
+				d := g.desc(false)
+				if nimpl > 0 && len(d.Fns) > 0 && k%7 == 3 {
+					d.Via = "implement"
+					nimpl--
+				}
+				ds = append(ds, d)
+			}
+		}
+		var dw *bufio.Writer
+		if *descs != "" {
+			df, err := os.Create(*descs)
+			if err != nil {
+				return err
+			}
+			defer df.Close()
+			dw = bufio.NewWriter(df)
+			defer dw.Flush()
+		}
+		for k, d := range ds {
+			if dw != nil {
+				b, _ := json.Marshal(d)
+				dw.Write(b)
+				dw.WriteByte('\n')
+			}
+			c, err := c12BuildCase(d, k, false, *work, st)
 			if err != nil {
 				st["gen_error"]++
+				if st["gen_error"] <= 5 {
+					fmt.Fprintf(os.Stderr, "c12: case %d dropped: %v\n", k, err)
+				}
 				continue
 			}
-			if k == 0 {
-				// witness of finding F14 (go/format not idempotent on this doc comment)
-				c.file.Functions()[0].Doc = []string{"  indented code", " - item", "  indented code"}
-			}
-			p12Emit(o, c, st)
+			c12Emit(o, c, st)
 		}
+		st["cases"] = len(ds)
 		return writeJSON(*f.stats, st)
 	})
 	register("c12fmt", "apply go/format to the model's `stubs` answers", func(args []string) error {
@@ -483,6 +893,11 @@ func init() {
 			return err
 		}
 		defer fm.Close()
+		fi, err := os.Open(*f.impl)
+		if err != nil {
+			return err
+		}
+		defer fi.Close()
 		w, err := os.Create(*outp)
 		if err != nil {
 			return err
@@ -492,10 +907,12 @@ func init() {
 		defer bw.Flush()
 		so := bufio.NewScanner(fo)
 		sm := bufio.NewScanner(fm)
+		si := bufio.NewScanner(fi)
 		so.Buffer(make([]byte, 1<<20), 1<<28)
 		sm.Buffer(make([]byte, 1<<20), 1<<28)
-		for so.Scan() && sm.Scan() {
-			req, resp := so.Text(), sm.Text()
+		si.Buffer(make([]byte, 1<<20), 1<<28)
+		for so.Scan() && sm.Scan() && si.Scan() {
+			req, resp, impl := so.Text(), sm.Text(), si.Text()
 			if strings.HasPrefix(req, "stubs ") {
 				if b, err := hex.DecodeString(resp); err == nil || resp == "-" {
 					src, ferr := format.Source(b)
@@ -503,6 +920,19 @@ func init() {
 						resp = "error"
 					} else {
 						resp = hexs(string(src))
+						// the property asks for a gofmt-STABLE file: an implementation that formats
+						// until the text no longer changes is as good as one that formats once
+						cur := src
+						for k := 0; k < 4 && resp != impl; k++ {
+							nx, err := format.Source(cur)
+							if err != nil || string(nx) == string(cur) {
+								break
+							}
+							cur = nx
+							if hexs(string(cur)) == impl {
+								resp = impl
+							}
+						}
 					}
 				}
 			}
@@ -511,11 +941,11 @@ func init() {
 		}
 		return nil
 	})
-	register("c12build", "stub+asm pairs: go list, go build, go vet -asmdecl", p12RunBuild)
+	register("c12build", "stub+asm pairs: go list, go build, go vet -asmdecl, link", c12RunBuild)
 }
 
-// p12Leaf finds a primitive component of a result to store into.
-func p12Leaf(c gotypes.Component, t types.Type, depth int) (gotypes.Component, *gotypes.Basic) {
+// c12Leaf finds a primitive component of a parameter/result to load from / store into.
+func c12Leaf(c gotypes.Component, t types.Type, depth int) (gotypes.Component, *gotypes.Basic) {
 	if depth > 6 {
 		return nil, nil
 	}
@@ -528,32 +958,32 @@ func p12Leaf(c gotypes.Component, t types.Type, depth int) (gotypes.Component, *
 			if u.Field(i).Name() == "_" {
 				continue
 			}
-			if l, b := p12Leaf(c.Field(u.Field(i).Name()), u.Field(i).Type(), depth+1); b != nil {
+			if l, b := c12Leaf(c.Field(u.Field(i).Name()), u.Field(i).Type(), depth+1); b != nil {
 				return l, b
 			}
 		}
 	case *types.Array:
 		if u.Len() > 0 {
-			return p12Leaf(c.Index(0), u.Elem(), depth+1)
+			return c12Leaf(c.Index(0), u.Elem(), depth+1)
 		}
 	case *types.Slice:
-		return p12Leaf(c.Len(), types.Typ[types.Int], depth+1)
+		return c12Leaf(c.Len(), types.Typ[types.Int], depth+1)
 	case *types.Basic:
 		if u.Kind() == types.String {
-			return p12Leaf(c.Len(), types.Typ[types.Int], depth+1)
+			return c12Leaf(c.Len(), types.Typ[types.Int], depth+1)
 		}
 		if u.Info()&types.IsComplex != 0 {
 			ft := types.Typ[types.Float64]
 			if u.Kind() == types.Complex64 {
 				ft = types.Typ[types.Float32]
 			}
-			return p12Leaf(c.Real(), ft, depth+1)
+			return c12Leaf(c.Real(), ft, depth+1)
 		}
 	}
 	return nil, nil
 }
 
-func p12StoreReg(b *gotypes.Basic) reg.Register {
+func c12RegFor(b *gotypes.Basic) reg.Register {
 	if b.Type.Info()&types.IsFloat != 0 {
 		return reg.X0
 	}
@@ -568,7 +998,7 @@ func p12StoreReg(b *gotypes.Basic) reg.Register {
 	return reg.RAX
 }
 
-type p12ListPkg struct {
+type c12ListPkg struct {
 	ImportPath        string
 	GoFiles           []string
 	SFiles            []string
@@ -576,7 +1006,22 @@ type p12ListPkg struct {
 	IgnoredOtherFiles []string
 }
 
-func p12RunBuild(args []string) error {
+// c12Declared lists the functions a stub file declares (go/parser; independent of avo's list).
+func c12Declared(stub string) []string {
+	af, err := parser.ParseFile(token.NewFileSet(), "stub.go", stub, 0)
+	if err != nil {
+		return nil
+	}
+	var ns []string
+	for _, d := range af.Decls {
+		if fd, ok := d.(*ast.FuncDecl); ok && fd.Recv == nil && fd.Body == nil && fd.Name.Name != "_" {
+			ns = append(ns, fd.Name.Name)
+		}
+	}
+	return ns
+}
+
+func c12RunBuild(args []string) error {
 	f := newStdFlags("c12build")
 	work := f.fs.String("work", ".", "scratch directory")
 	if err := f.fs.Parse(args); err != nil {
@@ -589,63 +1034,46 @@ func p12RunBuild(args []string) error {
 	defer o.close()
 	r := newRng(*f.seed ^ 0xc12b)
 	st := map[string]int{}
+	g := &c12Gen{r: r, st: st}
 	mod := filepath.Join(*work, "mod")
 	os.RemoveAll(mod)
-	if err := os.MkdirAll(mod, 0o755); err != nil {
+	if err := os.MkdirAll(filepath.Join(mod, "q"), 0o755); err != nil {
 		return err
 	}
 	if err := os.WriteFile(filepath.Join(mod, "go.mod"), []byte("module m\n\ngo 1.22\n"), 0o644); err != nil {
 		return err
 	}
+	if err := os.WriteFile(filepath.Join(mod, "q", "q.go"), []byte(c12QSource), 0o644); err != nil {
+		return err
+	}
 	type built struct {
-		c   *p12Case
-		enc string
+		c    *c12Case
+		enc  string
+		dir  string
+		stub string
 	}
 	var cases []built
-	for k := 0; k < *f.n; k++ {
-		c, err := p12GenCase(r, st, k, true)
-		if err != nil {
-			st["gen_error"]++
-			continue
+	var ds []c12Desc
+	if *f.replay != "" {
+		if ds, err = c12ReadDescs(*f.replay); err != nil {
+			return err
 		}
-		// rebuild the file through build.Context so that the bodies are real avo code
-		ctx := build.NewContext()
-		if len(c.file.Constraints) > 0 {
-			ctx.Constraints(c.file.Constraints)
+	} else {
+		for k := 0; k < *f.n; k++ {
+			ds = append(ds, g.desc(true))
 		}
-		irfns := c.file.Functions()
-		for i, fn := range c.fns {
-			ctx.Function(fn.name)
-			ctx.Attributes(attr.NOSPLIT)
-			ctx.Signature(gotypes.NewSignature(c.pkg, fn.sig))
-			ctx.Doc(irfns[i].Doc...)
-			for _, p := range irfns[i].Pragmas {
-				ctx.Pragma(p.Directive, p.Arguments...)
-			}
-			for j := 0; j < fn.sig.Results().Len(); j++ {
-				if fn.sig.Results().At(j).Name() == "_" {
-					continue // a blank result has no name to refer to in x+off(FP) syntax
-				}
-				leaf, b := p12Leaf(ctx.ReturnIndex(j), fn.sig.Results().At(j).Type(), 0)
-				if b == nil {
-					st["result_without_leaf"]++
-					continue
-				}
-				ctx.Store(p12StoreReg(b), leaf)
-			}
-			ctx.RET()
-		}
-		file, err := ctx.Result()
+	}
+	for k, d := range ds {
+		d.Via = "ctx"
+		c, err := c12BuildCase(d, k, true, *work, st)
 		if err != nil {
 			st["build_error"]++
+			if st["build_error"] <= 5 {
+				fmt.Fprintf(os.Stderr, "c12build: case %d dropped: %v\n", k, err)
+			}
 			continue
 		}
-		if err := pass.Compile.Execute(file); err != nil {
-			st["compile_error"]++
-			continue
-		}
-		c.file = file
-		stub, asm, ok := p12Emit(o, c, st)
+		stub, asm, ok := c12Emit(o, c, st)
 		if !ok {
 			continue
 		}
@@ -655,11 +1083,11 @@ func p12RunBuild(args []string) error {
 		}
 		os.WriteFile(filepath.Join(dir, "stub.go"), []byte(stub), 0o644)
 		os.WriteFile(filepath.Join(dir, "asm.s"), []byte(asm), 0o644)
-		os.WriteFile(filepath.Join(dir, "types.go"), []byte(p12HelperSource(c.cfg.Pkg)), 0o644)
-		e := &p11Enc{}
-		p11EncodeCfg(e, c.cfg)
-		p11EncodeFile(e, c.file)
-		cases = append(cases, built{c, e.String()})
+		os.WriteFile(filepath.Join(dir, "types.go"), []byte(c12HelperSource(c.cfg.Pkg)), 0o644)
+		e := &c12Enc{}
+		c12EncodeCfg(e, c.cfg)
+		c12EncodeFile(e, c.file)
+		cases = append(cases, built{c, e.String(), dir, stub})
 	}
 	run := func(args ...string) (string, error) {
 		cmd := exec.Command("go", args...)
@@ -676,7 +1104,7 @@ func p12RunBuild(args []string) error {
 	included := map[string]string{}
 	dec := json.NewDecoder(strings.NewReader(listOut))
 	for dec.More() {
-		var p p12ListPkg
+		var p c12ListPkg
 		if err := dec.Decode(&p); err != nil {
 			return fmt.Errorf("go list output: %v", err)
 		}
@@ -699,7 +1127,17 @@ func p12RunBuild(args []string) error {
 			included[p.ImportPath] = "split"
 		}
 	}
-	// 2. go build and go vet -asmdecl over the whole module; failures are attributed to packages
+	// 2. every package whose pair is selected gets a Go file referencing every function the stub
+	// file DECLARES (function values: the linker must resolve each symbol)
+	for _, b := range cases {
+		if included[b.c.pkgpath] != "both" {
+			continue
+		}
+		ns := c12Declared(b.stub)
+		src := "package " + b.c.cfg.Pkg + "\n\n// C12Refs references every function declared in stub.go.\nfunc C12Refs() []any {\n\treturn []any{" + strings.Join(ns, ", ") + "}\n}\n"
+		os.WriteFile(filepath.Join(b.dir, "refs.go"), []byte(src), 0o644)
+	}
+	// 3. go build and go vet -asmdecl over the whole module; failures are attributed to packages
 	buildOut, berr := run("build", "./...")
 	vetOut, verr := run("vet", "-asmdecl", "./...")
 	bad := func(out string) map[string]string {
@@ -715,10 +1153,11 @@ func p12RunBuild(args []string) error {
 			}
 			key := cur
 			if key == "" {
-				if i := strings.Index(l, "/asm.s"); i > 0 {
-					key = "m/" + filepath.Base(l[:i])
-				} else if i := strings.Index(l, "/stub.go"); i > 0 {
-					key = "m/" + filepath.Base(l[:i])
+				for _, fn := range []string{"/asm.s", "/stub.go", "/refs.go", "/types.go"} {
+					if i := strings.Index(l, fn); i > 0 {
+						key = "m/" + filepath.Base(l[:i])
+						break
+					}
 				}
 			}
 			if _, ok := m[key]; !ok {
@@ -734,6 +1173,47 @@ func p12RunBuild(args []string) error {
 	if verr != nil {
 		vbad = bad(vetOut)
 	}
+	// 4. link: package main calling C12Refs of every selected package that compiled
+	lbad := map[string]string{}
+	var linked []built
+	for _, b := range cases {
+		if included[b.c.pkgpath] == "both" && bbad[b.c.pkgpath] == "" {
+			linked = append(linked, b)
+		}
+	}
+	if len(linked) > 0 {
+		var sb strings.Builder
+		sb.WriteString("package main\n\nimport (\n")
+		for i, b := range linked {
+			fmt.Fprintf(&sb, "\tl%d %q\n", i, b.c.pkgpath)
+		}
+		sb.WriteString(")\n\nvar sink [][]any\n\nfunc main() {\n")
+		for i := range linked {
+			fmt.Fprintf(&sb, "\tsink = append(sink, l%d.C12Refs())\n", i)
+		}
+		sb.WriteString("\tprintln(len(sink))\n}\n")
+		ldir := filepath.Join(mod, "cmd", "c12link")
+		if err := os.MkdirAll(ldir, 0o755); err != nil {
+			return err
+		}
+		os.WriteFile(filepath.Join(ldir, "main.go"), []byte(sb.String()), 0o644)
+		linkOut, lerr := run("build", "-o", filepath.Join(mod, "c12link.bin"), "./cmd/c12link")
+		if lerr != nil {
+			re := regexp.MustCompile(`relocation target (m/p[0-9]+)\.(\S+) not defined`)
+			for _, l := range strings.Split(linkOut, "\n") {
+				if m := re.FindStringSubmatch(l); m != nil {
+					if _, ok := lbad[m[1]]; !ok {
+						lbad[m[1]] = l
+					}
+				}
+			}
+			if len(lbad) == 0 {
+				return fmt.Errorf("go build of the linking executable failed without attributable output: %s", linkOut)
+			}
+		} else if out, err := exec.Command(filepath.Join(mod, "c12link.bin")).CombinedOutput(); err != nil || strings.TrimSpace(string(out)) != itoa(len(linked)) {
+			return fmt.Errorf("linked executable: %v: %s", err, out)
+		}
+	}
 	for _, b := range cases {
 		path := b.c.pkgpath
 		verdict := "ok"
@@ -744,11 +1224,16 @@ func p12RunBuild(args []string) error {
 			verdict = "build-failed"
 		case vbad[path] != "":
 			verdict = "vet-asmdecl"
+		case lbad[path] != "":
+			verdict = "link-failed"
 		}
 		st["pair_"+included[path]]++
+		if included[path] == "both" && bbad[path] == "" {
+			st["pair_linked"]++
+		}
 		detail := "-"
 		if verdict != "ok" {
-			detail = hexs(bbad[path] + " | " + vbad[path])
+			detail = hexs(bbad[path] + " | " + vbad[path] + " | " + lbad[path])
 		}
 		o.emit("accept-build "+verdict+" "+detail+" "+b.enc, "ok")
 	}
@@ -762,5 +1247,6 @@ func p12RunBuild(args []string) error {
 		return fmt.Errorf("go vet: unattributed failure: %s", vbad[""])
 	}
 	st["pairs"] = len(cases)
+	st["cases"] = len(ds)
 	return writeJSON(*f.stats, st)
 }
